@@ -1,11 +1,12 @@
 import DepLogic.Model.Codec
 import DepLogic.Model.Tags
+import DepLogic.Model.MarkerCodec
 /-
   Line-protocol interpreter over the executable model.
   One operation per input line (TAB separated), one answer line per operation.
   `lake env lean --run Driver.lean < ops.txt`
 -/
-open DepLogic DepLogic.Codec
+open DepLogic DepLogic.Codec DepLogic.SpecParse DepLogic.MarkerCodec
 
 def bad : String := "bad-op"
 
@@ -39,6 +40,14 @@ def showScore (x : Nat × Nat × Nat) : String := s!"{x.1},{x.2.1},{x.2.2}"
 def dotList (s : String) : List String := if s.isEmpty then [] else s.splitOn "."
 
 def showChars (l : List (List Char)) : String := ".".intercalate (l.map String.ofList)
+
+def fuelA : Nat := 60
+def fuelB : Nat := 100
+
+def withExpr (e : String) (k : Expr → String) : String :=
+  match parseExpr (e.splitOn " ") with
+  | some (x, []) => k x
+  | _ => bad
 
 def handle (fields : List String) : String :=
   match fields with
@@ -108,6 +117,34 @@ def handle (fields : List String) : String :=
       withEnv rp1 pl1 im1 fun a => withEnv rp2 pl2 im2 fun b =>
         match compare a b with
         | .incompatible => "INCOMPATIBLE" | .lowerOrEqual => "LOWER_OR_EQUAL" | .higher => "HIGHER"
+  -- markers (C02, C03, C07, C10, C11, C12, C13, C14, C15)
+  | ["m.expr", e] => withExpr e fun x =>
+      match x.run fuelA, x.run fuelB with
+      | some a, some b =>
+        let sa := showM a
+        if sa != showM b then "out-of-fuel" else sa ++ "\t" ++ a.str
+      | _, _ => "unmodelled"
+  | ["m.eval", e, env] => withExpr e fun x =>
+      match x.run fuelB with
+      | some a =>
+        (match a.eval (parseEnv env) with | some true => "T" | some false => "F" | none => "raise")
+      | none => "unmodelled"
+  | ["m.eq", e1, e2] => withExpr e1 fun x => withExpr e2 fun y =>
+      match x.run fuelB, y.run fuelB with
+      | some a, some b => showB (M.beq a b)
+      | _, _ => "unmodelled"
+  | ["m.spec", name, op, value, rev] =>
+      match MOp.ofString? (dec op) with
+      | none => bad
+      | some o =>
+        match getSpecifier (dec name) o (dec value) (rev == "t") with
+        | some (.ver s) => showSpec s
+        | some (.gen g) => "G\t" ++ g.op.str ++ "\t" ++ g.value
+        | none => "unmodelled"
+  | ["m.fromspec", name, sp] => withSpec sp fun s =>
+      match M.fromSpecifier (dec name) (.ver s) with
+      | none => "None"
+      | some m => showM m ++ "\t" ++ m.str
   | ["v.le", a, b] =>
       match parseVer a, parseVer b with
       | some x, some y => showB (decide (LinPre.le x y))
